@@ -22,7 +22,11 @@ Section Sys.
 
   Notation run l := (fold_left apply l init).
   Notation ok l := (exec_ok St Op apply ready init l).
-  Hypothesis ready_iff : forall l o, ok l -> (ready (run l) o <-> dsat l o).
+  (* [fr l o]: the part of readiness that is not monotone in the applied set — the operation's identifier is new to the
+     replica (the list needs it; counter and map take [fun _ _ => True]).  It follows from uniqueness of identifiers. *)
+  Variable fr : list Op -> Op -> Prop.
+  Hypothesis fr_new : forall l o, ok l -> ~ In (oid o) (map oid l) -> fr l o.
+  Hypothesis ready_iff : forall l o, ok l -> (ready (run l) o <-> dsat l o /\ fr l o).
 
   Record replica := { applied : list Op; pending : list Op; cursor : nat }.
   Record sys := { log : list Op; reps : nat -> replica }.
@@ -237,7 +241,7 @@ Section Sys.
              injection Hj as <-.
              assert (j = length (pending (reps s r))) by lia. subst j.
              rewrite firstn_app_le by lia. rewrite firstn_all.
-             apply (ready_iff _ _ (Iok r)) in Hready.
+             apply (ready_iff _ _ (Iok r)) in Hready. destruct Hready as [Hready _].
              eapply dsat_mono; [|exact Hready].
              intros x Hx. apply Iapp in Hx. apply in_or_app.
              destruct Hx as [[_ [H|H]]|[_ H]]; [left; exact H|right; exact H|left; eapply in_firstn; exact H].
@@ -282,8 +286,11 @@ Section Sys.
       { rewrite Iapp. intros [[H _]|[_ H]]; [congruence|]. eapply nodup_nth_not_before; eauto. }
       constructor; cbn.
       + intros r'. destruct (Nat.eq_dec r' r) as [->|Hne]; [rewrite upd_same; cbn|rewrite upd_other by exact Hne; apply Iok].
-        apply ok_app. split; [apply Iok|]. apply (ready_iff _ _ (Iok r)).
-        eapply dsat_mono; [exact Hsub|]. apply Ilog. exact Hn.
+        apply ok_app. split; [apply Iok|]. apply (ready_iff _ _ (Iok r)). split.
+        * eapply dsat_mono; [exact Hsub|]. apply Ilog. exact Hn.
+        * apply fr_new; [apply Iok|]. intros Hin. apply in_map_iff in Hin. destruct Hin as [x [Ex Hx]].
+          assert (x = o); [|subst x; exact (Hnew Hx)].
+          apply Iinj; [right; exists r; right; exact Hx|left; eapply nth_error_In; exact Hn|exact Ex].
       + intros r'. destruct (Nat.eq_dec r' r) as [->|Hne]; [rewrite upd_same; cbn|rewrite upd_other by exact Hne; apply Ind].
         apply nodup_snoc; auto.
       + split; [exact Indl|split].
